@@ -1,7 +1,9 @@
 (* C04 - captured variables are frozen by value at the call, respecting scope.
    Statements only; proofs in Proofs/CaptureProofs.v and Proofs/CaptureSem.v.
    [rw ce st e] is the model of _rewrite_captured_vars (ignore stack [st], snapshot [ce]) with fixes
-   F08, F19, FC1, FC3 applied; [check_ast] the gate over the generated list [legal_const_kinds]. *)
+   F08, F19, FC1, FC3, FC7, FC8 applied; [check_ast] the gate over the generated list [legal_const_kinds].
+   A lambda with default values or parameter kinds other than plain positional is an [Other] node decoded by
+   [lam_view]/[lam_parts] (Model/Capture.v). *)
 From FA.Base Require Import PyAst Value Eval Traverse.
 From FA.Gen Require Import TablesUtil.
 From FA.Model Require Import Capture.
@@ -57,6 +59,18 @@ Print Assumptions capture_params_never_replaced.
 Theorem capture_bound_name_kept : forall ce st x, is_arg st x = true -> rw ce st (Name x) = Ok (Name x, Name x).
 Proof. exact rw_bound_name. Qed.
 Print Assumptions capture_bound_name_kept.
+
+(* FC7 + FC8: a lambda with default values / keyword-only, positional-only, * or ** parameters ([lam_parts] decodes it):
+   every name it binds is on the ignore stack while its body is rewritten, and its default values are rewritten with
+   the ignore stack of the ENCLOSING scope - `lambda q, x=x: q + x` freezes the default `x`, not the parameter *)
+Theorem capture_defaults_in_enclosing_scope :
+  forall ce st cls atoms cs acls aatoms akids b lv,
+    lam_parts cls cs = Some (acls, aatoms, akids, b, lv) ->
+    rw ce st (Other cls atoms cs) =
+    same (sbind (rw_list (fun k => if is_argnode k then Ok (k, k) else rw ce st k) akids) (fun akids' =>
+          sbind (rw ce (lv_params lv :: st) b) (fun pb => Ok (Other cls atoms [Other acls aatoms akids'; fst pb])))).
+Proof. exact rw_lambda_defaults_outer. Qed.
+Print Assumptions capture_defaults_in_enclosing_scope.
 
 (* --- capture_gate --- *)
 Theorem capture_gate : forall e,
@@ -130,4 +144,34 @@ Example gate_kinds :
   map legal_const [CInt 1; CBool true; CStr "s"; CBytes "b"; CFloat "1.5"; CComplex "1j"; CObj "module" "math#0";
                    CNone; CEllipsis; CObj "type" "K#1"; CObj "other:tuple" "t#2"]
   = [true; true; true; true; true; true; true; false; false; false; false].
+Proof. vm_compute. reflexivity. Qed.
+
+(* FC7, FC8: lambda e: (lambda q, x=x: q + x)(e.a) + x  with x = 2 captured: the default and the last `x` are frozen,
+   the parameter `x` and its use in the body are not; the keyword-only `x` of lambda j, *, x=g: j + x likewise *)
+Definition argn (x : string) : expr := Other "arg;arg=a;annotation=0;type_comment=0" [CStr x] [].
+Example defaults_frozen_parameters_kept :
+  let lam d b := Other "Lambda;args=n;body=n" []
+                       [Other "arguments;posonlyargs=[];args=[nn];vararg=0;kwonlyargs=[];kw_defaults=[];kwarg=0;defaults=[n]" []
+                              [argn "q"; argn "x"; d]; b] in
+  let kwo d b := Other "Lambda;args=n;body=n" []
+                       [Other "arguments;posonlyargs=[];args=[n];vararg=0;kwonlyargs=[n];kw_defaults=[n];kwarg=0;defaults=[]" []
+                              [argn "j"; argn "x"; d]; b] in
+  rewrite_captured ce0
+    (Lambda ["e"] (BinOp BAdd (Call (lam (Name "x") (BinOp BAdd (Name "q") (Name "x"))) [Attr (Name "e") "a"] [] []) (Name "x")))
+  = Ok (Lambda ["e"] (BinOp BAdd (Call (lam (Const (CInt 2)) (BinOp BAdd (Name "q") (Name "x"))) [Attr (Name "e") "a"] [] [])
+                            (Const (CInt 2)))) /\
+  rewrite_captured ce0 (Lambda ["e"] (kwo (Name "g") (BinOp BAdd (Name "j") (Name "x"))))
+  = Ok (Lambda ["e"] (kwo (Const (CInt 10)) (BinOp BAdd (Name "j") (Name "x")))) /\
+  lam_parts "Lambda;args=n;body=n"
+            [Other "arguments;posonlyargs=[];args=[n];vararg=0;kwonlyargs=[n];kw_defaults=[n];kwarg=0;defaults=[]" []
+                   [argn "j"; argn "x"; Name "g"]; BinOp BAdd (Name "j") (Name "x")]
+  = Some ("arguments;posonlyargs=[];args=[n];vararg=0;kwonlyargs=[n];kw_defaults=[n];kwarg=0;defaults=[]", [],
+          [argn "j"; argn "x"; Name "g"], BinOp BAdd (Name "j") (Name "x"),
+          {| lv_args := ["j"]; lv_params := ["j"; "x"]; lv_simple := false |}).
+Proof. repeat split; vm_compute; reflexivity. Qed.
+
+(* a captured value used in a starred argument is frozen like anywhere else (generic_visit of the Starred node) *)
+Example starred_argument_frozen :
+  rewrite_captured ce0 (Lambda ["e"] (Call (Name "helper") [Other "Starred;value=n" [] [List [Name "x"; Attr (Name "e") "a"]]] [] []))
+  = Ok (Lambda ["e"] (Call (Name "helper") [Other "Starred;value=n" [] [List [Const (CInt 2); Attr (Name "e") "a"]]] [] [])).
 Proof. vm_compute. reflexivity. Qed.
